@@ -38,7 +38,10 @@ def compare(rep, geo, rng, key, det, work, viafile):
                 f = os.path.join(work, "m.dat")
                 dat.write(f)
                 grid = t2data.t2data(f).grid
-            geo2, bmap = grid.rectgeo(convention=geo.convention, atmos_type=geo.atmosphere_type)
+            # the reconstructed geometry may be asked for in another naming convention: the block map then carries every name
+            conv2 = geo.convention if rng.random() < 0.6 else rng.choice([c for c in (0, 1, 2) if c != geo.convention and (c != 1 or geo.num_columns <= 99)])
+            det["rectgeo_convention"] = conv2
+            geo2, bmap = grid.rectgeo(convention=conv2, atmos_type=geo.atmosphere_type)
     except core.Hang:
         rep.violation(key + ":hang", "P_terminates", det)
         return
